@@ -14,7 +14,7 @@ use crate::Ctx;
 use mdv_core::mdparse::{Dump, NormOpts};
 use mdv_core::{json, Report, Value};
 
-const CHANGES: [&str; 5] = ["none", "add-thread", "exit-thread", "rewrite-app-region", "aborted-dump-first"];
+const CHANGES: [&str; 9] = ["none", "add-thread", "exit-thread", "rewrite-app-region", "aborted-dump-first", "reconfigure-app-memory", "reconfigure-crash-context", "reconfigure-user-mappings", "reconfigure-principal-mapping"];
 const OPTSETS: [&str; 7] = ["plain", "crash-context", "app-memory", "skip-unreferenced", "size-limit", "all", "blamed-thread-that-may-exit"];
 
 fn opts(set: usize, b: &Built, env: &Env) -> DumpOpts {
@@ -81,8 +81,9 @@ fn run_history(set: usize, hist: &[usize]) -> Res {
     shape.patterns.push((3, "hole".into(), "rw".into()));
     let mut b = build(&shape);
     let env = env_of(&mut b);
-    let o = opts(set, &b, &env);
+    let mut o = opts(set, &b, &env);
     let mut reused = make_writer(b.p.pid, &o);
+    let mut cfg_gen = 0usize;
     let mut fails = Vec::new();
     let mut dumps = 0;
     let mut sig = Vec::new();
@@ -114,6 +115,33 @@ fn run_history(set: usize, hist: &[usize]) -> Res {
                 if matches!(r, DumpResult::Ok(_)) {
                     return Res { case, fails, dumps, outcome: 9, machinery: Some("the dump with an unreadable app region did not fail".into()) };
                 }
+            }
+            // the caller re-configures the writer between two requests: the next dump must be what a
+            // fresh writer with the new configuration produces
+            5 => {
+                cfg_gen += 1;
+                o.app_memory = vec![(b.pattern_addrs[0] as usize + 16 * cfg_gen, 100 + cfg_gen), (b.pattern_addrs[0] as usize + 8192, 32)];
+                reused.set_app_memory(o.app_memory.iter().map(|(p, l)| minidump_writer::app_memory::AppMemory { ptr: *p, length: *l }).collect());
+            }
+            6 => {
+                cfg_gen += 1;
+                let tid = o.blamed.unwrap_or(b.p.pid);
+                let c = CrashSpec { tid, signo: 7 + cfg_gen as u32, code: 0x100 + cfg_gen as i32, addr: 0x5000 + cfg_gen as u64, devs: vec![(DIM_RSP, env.main_stack.1 - 0x1800 - 64 * cfg_gen as u64), (DIM_RIP, env.text.0 + 0x40 + 8 * cfg_gen as u64), (13, 0xabc0 + cfg_gen as u64)] };
+                reused.set_crash_context(crate::dump::crash_context_of(b.p.pid, &c));
+                o.crash = Some(c);
+            }
+            7 => {
+                cfg_gen += 1;
+                o.user_mappings = vec![crate::dump::UserMap { start: 0x10_0000 * cfg_gen, size: 8192, name: format!("/user/gen{cfg_gen}.so"), id: vec![cfg_gen as u8; 16] }];
+                reused.set_user_mapping_list(crate::dump::user_mapping_list_of(&o.user_mappings));
+            }
+            8 => {
+                cfg_gen += 1;
+                o.skip_unref = true;
+                let t = &b.p.threads[cfg_gen % 2];
+                o.principal = Some(t.page as usize + 16);
+                reused.skip_stacks_if_mapping_unreferenced();
+                reused.set_principal_mapping_address(t.page as usize + 16);
             }
             _ => {}
         }
@@ -161,7 +189,7 @@ fn run_history(set: usize, hist: &[usize]) -> Res {
 }
 
 pub fn run(ctx: &Ctx, rep: &mut Report) {
-    rep.rule = "SEQ: every history of 2..depth (quick 3, thorough 4..5) dump requests on one writer, each preceded by a target change from {none, thread added, thread exited, app region rewritten}, under 6 option sets; after every dump a fresh identically configured writer dumps the same quiescent target and the normalised decodings are compared. nontrivial = histories with at least one target change".into();
+    rep.rule = "SEQ: every history of 2..depth (quick 3, thorough 4..5) dump requests on one writer, each preceded by a step from {none, thread added, thread exited, app region rewritten, an aborted request, the writer re-configured (app memory / crash context / user mappings / principal mapping)}, under 7 option sets; after every dump a fresh identically configured writer dumps the same quiescent target and the normalised decodings are compared. nontrivial = histories with at least one target change".into();
     rep.assume("two dumps of an unchanged quiescent puppet decode to the same normalised content (timestamp, /proc/cpuinfo and /proc/<pid>/status streams masked); verified by the option set 'plain' with history [none, none]");
     if let Some(case) = &ctx.replay {
         let set = OPTSETS.iter().position(|s| Some(*s) == case.get("option_set").and_then(|v| v.as_str())).unwrap_or(0);
@@ -184,6 +212,10 @@ pub fn run(ctx: &Ctx, rep: &mut Report) {
             let mut next = Vec::new();
             for h in &hists {
                 for c in 0..CHANGES.len() {
+                    // quick tier: at most one re-configuration step per history (thorough: any)
+                    if !ctx.tier.is_thorough() && c >= 5 && h.iter().any(|x| *x >= 5) {
+                        continue;
+                    }
                     let mut h2 = h.clone();
                     h2.push(c);
                     next.push(h2);
